@@ -366,3 +366,42 @@ def depfile_random_leg(run, n2, rng, rounds):
         finally:
             shutil.rmtree(d, ignore_errors=True)
     return dict(stats)
+
+
+def killed_command_leg(run, n2, rng):
+    """real commands that die from a signal after writing (part of) their outputs: the invocation must not report success,
+    nothing downstream is built from the partial output, and the next invocation re-runs the step (clean-build equivalence)"""
+    stats = collections.Counter()
+    for sig in ["KILL", "TERM", "SEGV", "HUP", "ABRT"] + ["exit7"]:
+        d = tempfile.mkdtemp(prefix="n2verif-task-%d-" % os.getpid())
+        try:
+            stats[sig] += 1
+            die = "exit 7" if sig == "exit7" else "kill -%s $$" % sig
+            write(d, "gen.sh", "#!/bin/sh\n# writes a partial output; dies while die.flag exists\nprintf 'partial-' > $1\n"
+                               "if [ -e die.flag ]; then %s; fi\ncat in.txt >> $1\n" % die)
+            os.chmod(os.path.join(d, "gen.sh"), 0o755)
+            # exec: the command itself (n2's direct child) is the process that dies
+            write(d, "build.ninja", "rule gen\n  command = exec ./gen.sh $out\nrule cp\n  command = cp $in $out\nbuild mid: gen in.txt\nbuild final: cp mid\n")
+            write(d, "in.txt", "v1\n", 1000000000)
+            where = {"project": "mid <- gen.sh (dies by %s after a partial write while die.flag exists); final <- cp mid" % sig}
+            rc, out = n2run(n2, d, ["final"])
+            if rc != 0 or open(os.path.join(d, "final")).read() != "partial-v1\n":
+                run.report_failure(None, "first build failed: rc=%d %r" % (rc, out[-200:]), where)
+                continue
+            write(d, "in.txt", "v2\n", 1000000100)
+            write(d, "die.flag", "")
+            rc, out = n2run(n2, d, ["final"])
+            if rc == 0:
+                run.report_failure(None, "a command that died (%s) after a partial write: the invocation reports success; final=%r" % (
+                    sig, open(os.path.join(d, "final")).read()), dict(where, output=out[-300:]))
+            if open(os.path.join(d, "final")).read() != "partial-v1\n":
+                run.report_failure(None, "a dependent of a command that died (%s) was rebuilt from its partial output" % sig, dict(where, output=out[-300:]))
+            os.remove(os.path.join(d, "die.flag"))
+            rc, out = n2run(n2, d, ["final"])
+            got = open(os.path.join(d, "final")).read()
+            if rc != 0 or got != "partial-v2\n":
+                run.report_failure(None, "after a command died (%s) the next successful invocation leaves final=%r, a clean build gives 'partial-v2'" % (sig, got),
+                                   dict(where, output=out[-300:]))
+        finally:
+            shutil.rmtree(d, ignore_errors=True)
+    return dict(stats)
